@@ -53,6 +53,7 @@ class Builder:
         self.stations = {}   # id -> obs cluster (one circle per station)
         self.extra = []      # other clusters
         self.heights = False
+        self.big_dh = False  # instrument / target heights that differ by metres (signal targets, masts)
 
     # -- points
     def new_xy(self, far_from=20.0):
@@ -62,10 +63,11 @@ class Builder:
                 return x, y
         return x, y
 
-    def add_point(self, status, how, xy=None):
-        pid = f"P{len(self.P) + 1}"
+    def add_point(self, status, how, xy=None, prefix="P", step=None):
+        pid = f"{prefix}{len(self.P) + 1}"
         x, y = xy if xy else self.new_xy()
-        p = {"x": x, "y": y, "status": status, "approx": True, "how": how}
+        # "how" = family of the construction, "step" = the exact construction (strategy + branch + configuration)
+        p = {"x": x, "y": y, "status": status, "approx": True, "how": how, "step": step or how}
         if self.dim == 3:
             p["z"] = self.rng.uniform(0, self.scale / 10)
         self.P[pid] = p
@@ -103,10 +105,15 @@ class Builder:
         self.station(s)["items"].append({"t": "azimuth", "to": t, "val": (G.bearing(self.P[s], self.P[t]) * GON) % 400.0,
                                          "stdev": 10.0})
 
+    def setstep(self, p, step):
+        self.P[p]["step"] = step + (":dh" if self.heights else "") + (":bigdh" if self.heights and self.big_dh else "")
+
     def slope(self, s, t, zangle=True, sdist=True):
         st = self.station(s)
         idh = st["idh"]
         tdh = self.rng.uniform(1.0, 2.0) if self.heights else 0.0
+        if self.heights and self.big_dh:
+            tdh = self.rng.choice([0.0, self.rng.uniform(3.5, 6.5)])
         if sdist and not self.has(s, t, "s-distance"):
             it = {"t": "s-distance", "to": t, "val": G.dist3(self.P[s], self.P[t], tdh - idh), "stdev": 5.0}
             if self.heights:
@@ -180,10 +187,13 @@ def attach(B, how):
         B.direction(s, p)
         if B.dim == 3:
             B.slope(s, p)
-            if rng.random() < 0.5:
+            hdist = rng.random() < 0.5
+            if hdist:
                 B.distance(s, p)
+            B.setstep(p, "polar:3d:zenith+slope" + ("+distance" if hdist else "") + ":target-from-station")
         else:
             B.distance(s, p)
+            B.setstep(p, "polar:2d")
         return p
     if how == "intersect":       # forward intersection by directions from 2-3 known stations
         for _ in range(30):
@@ -202,6 +212,7 @@ def attach(B, how):
             B.direction(s, p)
         if B.dim == 3:
             B.slope(ss[0], p, sdist=False)
+        B.setstep(p, f"intersect:{len(ss)}-directions" + (":z-from-zenith+coordinates:target-from-station" if B.dim == 3 else ""))
         return p
     if how == "distint":         # three distances
         if len(known) < 3:
@@ -224,6 +235,7 @@ def attach(B, how):
                 B.distance(p, s)
         if B.dim == 3:
             B.slope(ss[0], p, sdist=False)
+        B.setstep(p, "distint:3-distances" + (":z-from-zenith+coordinates:target-from-station" if B.dim == 3 else ""))
         return p
     if how == "resect":          # directions from the new point to >= 4 known points
         if len(known) < 4:
@@ -248,6 +260,8 @@ def attach(B, how):
                 B.direction(p, s)
         if B.dim == 3:
             B.slope(p, ss[0], sdist=False)
+        B.setstep(p, f"resect:{len(ss)}-{'angles' if use_angles else 'directions'}"
+                  + (":z-from-zenith+coordinates:station-from-target" if B.dim == 3 else ""))
         return p
     if how == "traverse":        # A(orientable) -> T1 .. Tk -> C(known)
         if len(known) < 3:
@@ -270,6 +284,7 @@ def attach(B, how):
             B.direction(p, prev)
             if B.dim == 3:
                 B.slope(prev, p, sdist=False)
+            B.setstep(p, f"traverse:{k}-points:point-{i}" + (":z-from-zenith+coordinates:target-from-station" if B.dim == 3 else ""))
             prev = p
         B.direction(prev, c)
         B.distance(prev, c)
@@ -277,28 +292,57 @@ def attach(B, how):
         B.orient_station(c, exclude=ids)
         return ids[-1]
     if how == "azimuth":
+        # AcordAzimuth orders the pair by PointID: the unknown end point gets an id that sorts before ("A…") or
+        # after ("P…" / "Q…") the known one, and the azimuth is observed from either end
         s = rng.choice(known)
-        p = B.add_point(status, how)
-        B.azimuth(s, p)
-        B.distance(s, p)
+        p = B.add_point(status, how, prefix=rng.choice(["A", "Q"]))
+        smaller = p.encode() < s.encode()
+        fwd = rng.random() < 0.5
+        B.azimuth(s, p) if fwd else B.azimuth(p, s)
+        B.distance(s, p) if rng.random() < 0.5 else B.distance(p, s)
         if B.dim == 3:
             B.slope(s, p, sdist=False)
+        B.setstep(p, f"azimuth+distance:unknown-{'smaller' if smaller else 'larger'}-id:observed-from-{'known' if fwd else 'unknown'}"
+                  + (":z-from-zenith+coordinates:target-from-station" if B.dim == 3 else ""))
         return p
     if how == "vector":
         s = rng.choice(known)
         p = B.add_point(status, how)
-        B.vector(s, p) if rng.random() < 0.5 else B.vector(p, s)
+        fwd = rng.random() < 0.5
+        B.vector(s, p) if fwd else B.vector(p, s)
+        B.setstep(p, "vector:" + ("from-known" if fwd else "to-known"))
+        return p
+    if how == "zstation":
+        # a new station whose xy comes from a polar sight taken at a known station and whose height comes ONLY from
+        # its own zenith angle + distance sights to targets with known heights (AcordZderived, station from targets)
+        if B.dim != 3:
+            return None
+        s = rng.choice(known)
+        p = B.add_point(status, how)
+        B.orient_station(s, exclude=(p,))
+        B.direction(s, p)
+        B.distance(s, p)
+        tg = rng.sample(known, min(len(known), rng.choice([1, 2, 2])))
+        kinds = []
+        for t in tg:
+            k = rng.choice(["zenith+slope", "zenith+distance", "zenith+slope+distance"])
+            kinds.append(k)
+            B.slope(p, t, sdist="slope" in k)
+            if "distance" in k:
+                B.distance(p, t)
+        B.setstep(p, "polar-xy + z:station-from-targets:" + "|".join(sorted(set(kinds))))
         return p
     raise ValueError(how)
 
 
 FAMILIES_2D = ["polar", "intersect", "distint", "resect", "traverse", "mix", "azimuth"]
-FAMILIES_3D = ["polar", "intersect", "traverse", "vector", "mix", "hdiff"]
+FAMILIES_3D = ["polar", "intersect", "traverse", "vector", "mix", "hdiff", "zstation", "azimuth"]
 
 
 def constructive(rng, dim=2, family="mix", nnew=None, heights=False):
     B = Builder(rng, dim)
     B.heights = heights
+    B.big_dh = heights and rng.random() < 0.5
     nfix = rng.choice([2, 3, 4]) if family not in ("resect", "distint") else rng.choice([4, 5])
     for _ in range(nfix):
         B.add_point("fix", "fix")
@@ -310,7 +354,7 @@ def constructive(rng, dim=2, family="mix", nnew=None, heights=False):
         how = family
         if family == "mix":
             how = rng.choice(["polar", "polar", "intersect", "distint", "resect", "traverse"] if dim == 2
-                             else ["polar", "polar", "intersect", "traverse", "vector"])
+                             else ["polar", "polar", "intersect", "traverse", "vector", "zstation", "azimuth"])
         if family == "hdiff":
             how = "polar"
         if attach(B, how):
@@ -353,6 +397,37 @@ def levelling(rng):
     for p in n["points"].values():
         p["how"] = "fix" if p["status"] == "fix" else "hdiff"
     n["params"]["sigma-act"] = "apriori"
+    return n
+
+
+AXES = ["ne", "sw", "es", "wn", "en", "nw", "se", "ws"]
+ANGLES = ["left-handed", "right-handed"]
+
+
+def mirror(net, axes, angles):
+    """the same network described in another coordinate system / angle sense (base description: x north, y east,
+    left-handed angles = gama's defaults); as tools/gen/c07_meta.py::t_mirror, without covariance transport
+    (the generated vector clusters carry a unit matrix, invariant under a signed permutation)"""
+    d = {"n": (1, "x"), "s": (-1, "x"), "e": (1, "y"), "w": (-1, "y")}
+    M = [d[axes[0]], d[axes[1]]]
+    n = copy.deepcopy(net)
+
+    def mp(x, y):
+        src = {"x": x, "y": y}
+        return M[0][0] * src[M[0][1]], M[1][0] * src[M[1][1]]
+
+    for p in n["points"].values():
+        if "x" in p:
+            p["x"], p["y"] = mp(p["x"], p["y"])
+    rh = angles == "right-handed"
+    for o in n["obs"]:
+        if o["kind"] == "obs":
+            for it in o["items"]:
+                if rh and it["t"] in ("direction", "angle", "azimuth"):
+                    it["val"] = (400.0 - it["val"]) % 400.0
+        elif o["kind"] == "vectors":
+            for it in o["items"]:
+                it["dx"], it["dy"] = mp(it["dx"], it["dy"])
     return n
 
 
